@@ -13,6 +13,7 @@ import (
 	"github.com/tableauio/tableau/internal/protogen"
 	"github.com/tableauio/tableau/internal/protogen/parseroptions"
 	"github.com/tableauio/tableau/internal/strcase"
+	"github.com/tableauio/tableau/internal/x/xfs"
 	"github.com/tableauio/tableau/internal/x/xproto"
 	"github.com/tableauio/tableau/options"
 	"github.com/tableauio/tableau/proto/tableaupb"
@@ -87,4 +88,12 @@ func SqueezeText(text string) string { return xproto.SqueezeText(text) }
 // PrepareOutdir is protogen's prepareOutdir (stale .proto removal in the proto output dir).
 func PrepareOutdir(outdir string, importFiles []string, delExisted bool) error {
 	return protogen.VerifPrepareOutdir(outdir, importFiles, delExisted)
+}
+
+// CleanSlashPath is xfs.CleanSlashPath.
+func CleanSlashPath(path string) string { return xfs.CleanSlashPath(path) }
+
+// RewriteSubdir is xfs.RewriteSubdir.
+func RewriteSubdir(path string, subdirRewrites map[string]string) string {
+	return xfs.RewriteSubdir(path, subdirRewrites)
 }
